@@ -180,6 +180,9 @@ type loopInfo struct {
 	kTerm   *Term // \k: completed iterations (range loops)
 	wcells  map[*Cell]bool
 	wheap   map[string]bool
+	rangeBound *Term
+	rangePhi   *ssa.Phi
+	tracksErr  bool
 }
 
 func (ex *Exec) unsupp(format string, a ...interface{}) {
